@@ -78,9 +78,10 @@ def main(argv=None):
         status = run(prop, args.tier, seed, args.root)
         if args.tier == "thorough" and status in (0, 1) and args.root is None:
             try:
-                from .selftest import run_for_property
+                from .selftest import controls_for_property, run_for_property
 
                 run_for_property(prop, seed)
+                controls_for_property(prop)
             except ModuleNotFoundError:
                 pass
         return status
